@@ -200,6 +200,17 @@ def step' (st : St) (j : Json) : St × List String :=
       | none => "not-found"
       | some rows => "[" ++ String.intercalate " " (sortStrs (rows.map (·.id))) ++ "]"
     (st, ["nsearch " ++ line])
+  -- wire leg: the status `ResolveStatusCode` picks for an error in which errors.Is finds these sentinels; the
+  -- timestamp `GetPresentations` hands to the server
+  | "nstatus" =>
+    let k := jStr j "kind"
+    let has (c : Char) : Bool := k.toList.contains c
+    (st, [s!"nstatus {resolveStatus Nuts.Facts.C16.statusTable Nuts.Facts.C16.statusDefault { invalid := has 'i', didMethods := has 'd', notFound := has 'n' }}"])
+  | "napits" =>
+    let ts : Option Int := match (j.getObjVal? "asked") with
+      | .ok v => v.getInt?.toOption
+      | _ => none
+    (st, [s!"napits {apiTimestamp ts}"])
   | o => (st, ["bad-op:" ++ o])
 
 end Nuts.Drv.C16
